@@ -499,7 +499,8 @@ class C18(core.Check):
         "included, is one of the 48 relabellings and right-handed (T_C18_returns_relabelling); round 6d: the finder points of "
         "the four fan disk classes are the rim / non-rim positions in every placement (T_C18_disk_finder_points, "
         "T_C18_disk_find), every rejection is a DegenerateGeometryError (T_C18_rejects_documented); round 6e: the finder on "
-        "float positions equals the exact finder under an explicit rounding hypothesis (T_C18_finder_stable). Only "
+        "float positions equals the exact finder under an explicit rounding hypothesis (T_C18_finder_stable), whose gap part is "
+        "proved for the fan disk classes (round 6f: T_C18_disk_gap, T_C18_finder_stable_pv). Only "
         "validator/oracle-checked: that the returned numbering of a block with warped sides satisfies Canonical "
         "as stated on the side area vectors (the theorem is stated on the hull triangles), that views without a clear winner on blocks whose adjacent sides are less than 60 degrees apart give one of the 48 relabellings, and that scipy's hull is a "
         "triangulation of the six sides (hypothesis of the theorem, decided per case)."
